@@ -861,7 +861,37 @@ def _server_side(r, idx):
     wn = [(n, c) for n in cfg.nodes for c in calls_at(n, "_evaluate_write_vectors")]
     if not wn:
         raise AnchorVanished("no _evaluate_write_vectors call in StorageServer.%s" % REMOTE)
-    verdicts = set()
+    # the verdict is identified by its defining call (not by a normal-form string): an expression is "the verdict"
+    # when, after stripping not / bool() and following local copies, it is that very call node
+    ev_calls = [(n, c) for n in cfg.nodes for c in calls_at(n, "_evaluate_test_vectors")]
+    if not ev_calls:
+        raise AnchorVanished("no _evaluate_test_vectors call in StorageServer.%s" % REMOTE)
+
+    def verdict_of(n, e, pol, accept):
+        """(True, polarity) when `e` evaluated at node n is one of the `accept`ed verdict calls (possibly negated)."""
+        for _ in range(8):
+            if isinstance(e, ast.UnaryOp) and isinstance(e.op, ast.Not):
+                e, pol = e.operand, not pol
+            elif isinstance(e, ast.Call) and isinstance(e.func, ast.Name) and e.func.id == "bool" and len(e.args) == 1 \
+                    and not e.keywords:
+                e = e.args[0]
+            elif isinstance(e, ast.Name):
+                d = fnorm.env_at(n).defs.get(e.id)
+                if d is None:
+                    return (False, pol)
+                e = d
+            else:
+                break
+        return (any(e is c for c in accept), pol)
+
+    def verdict_edge(accept, want_true):
+        def gate(n, lab):
+            if n.kind != "test" or not isinstance(lab, tuple):
+                return False
+            hit, pol = verdict_of(n, n.ast, lab[0] == "T", accept)
+            return hit and pol == want_true
+        return gate
+    all_accept = []
     for (n, c) in wn:
         r.site(fn, c, "write vectors")
         a_tw = arg(c, 2, "test_and_write_vectors")
@@ -869,18 +899,28 @@ def _server_side(r, idx):
         r.require(a_tw is not None and fnorm.norm(n, a_tw) == twp, fn, fn.loc(c), "write vectors come from %s" % (
             src(fn, a_tw) if a_tw is not None else "?"))
         sh = fnorm.norm(n, a_sh) if a_sh is not None else "?"
-        want = "self._evaluate_test_vectors(%s, %s)" % (twp, sh)
-        verdicts.add(want)
-        gate = _fact_gate(fnorm, lambda op, l, rr, _w=want: op == "truth" and l == _w)
+        accept = [vc for (vn, vc) in ev_calls if len(vc.args) == 2 and not vc.keywords and call_name(vc).startswith("self.")
+                  and fnorm.norm(vn, vc.args[0]) == twp and fnorm.norm(vn, vc.args[1]) == sh]
+        all_accept += accept
         r.count(len(cfg.nodes))
-        for (t, w) in find_path_avoiding(cfg, lambda x, _n=n: x is _n, gate_edge=gate):
+        for (t, w) in find_path_avoiding(cfg, lambda x, _n=n: x is _n, gate_edge=verdict_edge(accept, True)):
             r.violation(fn, fn.loc(c), "write vectors are applied without the test vectors over the same shares having "
-                        "passed (expected fact: %s) (path: %s)" % (want, w.brief()), w)
+                        "passed (expected a true test of self._evaluate_test_vectors(%s, %s)) (path: %s)" % (twp, sh, w.brief()), w)
     rets = cfg.find(is_return)
     r.site(fn, rets[0].ast if rets else None, "verdict returned")
     for n in rets:
         v = fnorm.resolve(n, n.ast.value) if n.ast.value is not None else None
-        ok = isinstance(v, ast.Tuple) and len(v.elts) == 2 and fnorm.norm(n, v.elts[0]) in verdicts
+        ok = isinstance(v, ast.Tuple) and len(v.elts) == 2
+        if ok:
+            v0 = v.elts[0]
+            hit, pol = verdict_of(n, v0, True, all_accept)
+            if hit:
+                ok = pol
+            elif isinstance(v0, ast.Constant) and isinstance(v0.value, bool):
+                # a constant is the verdict where the verdict has been observed to have that value on every path
+                ok = not find_path_avoiding(cfg, lambda x, _n=n: x is _n, gate_edge=verdict_edge(all_accept, v0.value))
+            else:
+                ok = False
         r.require(ok, fn, fn.loc(n.ast), "returns %s: the first element must be the test-vector verdict" % src(fn, n.ast.value))
     # _evaluate_test_vectors
     ev = idx.func(SRV + "._evaluate_test_vectors")
